@@ -63,7 +63,7 @@ def main():
         meta["detected_by"] = {}
         for c in checks:
             envc = dict(os.environ, VERIF_REPO=wt)
-            rc, out = sh(f"./check {c} --tier {a.tier}", cwd=V, env=envc, timeout=3600)
+            rc, out = sh(f"./check {c} --tier {a.tier} --no-proof", cwd=V, env=envc, timeout=3600)  # harness part only: the proof step does not depend on /repo
             viol = [ln for ln in out.splitlines() if ln.startswith("VIOLATION")]
             meta["detected_by"][c] = {"rc": rc, "violation_line": viol[0] if viol else None,
                                       "summary": out.strip().splitlines()[-1][:300] if out.strip() else ""}
